@@ -18,6 +18,7 @@ type TWCCModel struct {
 	NoPFlag bool
 	Status  []uint8 // 0 not received, 1 small delta, 2 large delta
 	Deltas  []int64 // units of 250 µs, one per status != 0, in order
+	Rem     []int64 // optional: microseconds below one unit added to the value's Delta (same index as Deltas; only for non-negative deltas, where rounding down and rounding toward zero agree)
 }
 
 // TWCCModelGen draws a model. Lengths 0…600 (a few longer unless NoBig/Small).
@@ -75,6 +76,15 @@ func TWCCModelGen(r *core.Rand, o Opts) *TWCCModel {
 			m.Deltas = append(m.Deltas, int64(r.Pick(0, 1, 4, 254, 255, r.Intn(256))))
 		case 2:
 			m.Deltas = append(m.Deltas, int64(r.Pick(-32768, -32767, -1, 0, 256, 32766, 32767, r.Intn(65536)-32768)))
+		}
+	}
+	if r.Chance(1, 4) {
+		// deltas that are not whole units: the documented quantisation drops the remainder
+		m.Rem = make([]int64, len(m.Deltas))
+		for i, u := range m.Deltas {
+			if u >= 0 {
+				m.Rem[i] = int64(r.Pick(0, 1, 125, 249, r.Intn(250)))
+			}
 		}
 	}
 	return m
@@ -167,7 +177,11 @@ func (m *TWCCModel) Value(chunks []rtcp.PacketStatusChunk) *rtcp.TransportLayerC
 		if s == 0 {
 			continue
 		}
-		t.RecvDeltas = append(t.RecvDeltas, &rtcp.RecvDelta{Type: uint16(s), Delta: m.Deltas[di] * 250})
+		d := m.Deltas[di] * 250
+		if di < len(m.Rem) {
+			d += m.Rem[di]
+		}
+		t.RecvDeltas = append(t.RecvDeltas, &rtcp.RecvDelta{Type: uint16(s), Delta: d})
 		di++
 		size += int(s)
 	}
